@@ -26,6 +26,13 @@ type exportedFn struct {
 	Pkg, Name string
 }
 
+var repoRoot = func() string {
+	if r := os.Getenv("VERIF_REPO"); r != "" {
+		return r
+	}
+	return "/repo"
+}()
+
 func pkgDirs(root string) []string {
 	var dirs []string
 	filepath.Walk(root, func(p string, info os.FileInfo, err error) error {
@@ -69,7 +76,7 @@ func analysePkg(dir string) (sites []site, fns []exportedFn, err error) {
 	if perr != nil {
 		return nil, nil, perr
 	}
-	rel, _ := filepath.Rel("/repo", dir)
+	rel, _ := filepath.Rel(repoRoot, dir)
 	path := "github.com/paulmach/orb"
 	if rel != "." {
 		path += "/" + rel
@@ -159,7 +166,7 @@ func analysePkg(dir string) (sites []site, fns []exportedFn, err error) {
 					if !ok || !isGeom(tv.Type) {
 						continue
 					}
-					s := site{Pos: fmt.Sprintf("%s:%d", strings.TrimPrefix(fset.Position(ts.Pos()).Filename, "/repo/"), fset.Position(ts.Pos()).Line), Func: fnName, Matrix: map[string]string{}}
+					s := site{Pos: fmt.Sprintf("%s:%d", strings.TrimPrefix(fset.Position(ts.Pos()).Filename, repoRoot+"/"), fset.Position(ts.Pos()).Line), Func: fnName, Matrix: map[string]string{}}
 					// is the nil interface handled before the switch (if x == nil { return })?
 					nilGuard := false
 					for _, prev := range list[:i] {
@@ -300,8 +307,8 @@ func analysePkg(dir string) (sites []site, fns []exportedFn, err error) {
 }
 
 func analyseRepo() ([]site, []exportedFn, error) {
-	os.Chdir("/repo")
-	dirs := pkgDirs("/repo")
+	os.Chdir(repoRoot)
+	dirs := pkgDirs(repoRoot)
 	var mu sync.Mutex
 	var wg sync.WaitGroup
 	var sites []site
